@@ -114,8 +114,21 @@ Verdict_same(ev) ==
                      /\ (r.al \notin {"dx", "dxy"} => SameRepr(r.xa, r.x))
                      /\ (r.al \notin {"dy", "dxy", "xy"} => SameRepr(r.ya, r.y))>> >>)
 
+\* the rounding kernel (stated here again, TraceRel imports no other oracle): the exported
+\* Rounder.ShouldAddOne must be Inc for a non-zero discarded part; proofs/Kern.tla proves the C20 laws of Inc
+IncK(mode, neg, C, half) ==
+  CASE mode = "down"      -> FALSE
+    [] mode = "up"        -> TRUE
+    [] mode = "ceiling"   -> ~neg
+    [] mode = "floor"     -> neg
+    [] mode = "half_down" -> half > 0
+    [] mode = "half_even" -> half > 0 \/ (half = 0 /\ IsOdd(C))
+    [] mode = "05up"      -> LastDigit(C) \in {0, 5}
+    [] OTHER              -> half >= 0
+
 Verdict(ev) ==
-  CASE ev.k = "sh" -> Names(<< <<"shared-state", ev.before = ev.after>> >>)
+  CASE ev.k = "sao" -> Names(<< <<"should-add-one", ev.ret = IncK(ev.mode, ev.neg, ev.c, ev.half)>> >>)
+    [] ev.k = "sh" -> Names(<< <<"shared-state", ev.before = ev.after>> >>)
     [] ev.gk = "modes" -> Verdict_modes(ev)
     [] ev.gk = "mono" -> Verdict_mono(ev)
     [] ev.gk \in {"swap", "subneg", "mirror", "scale"} -> Verdict_pair(ev)
